@@ -303,7 +303,14 @@ func playHand(o *Out, r *Rng, cfgLine string, probeP, viewP, hopP, malP float64)
 			h.views()
 		}
 		if r.Chance(hopP) {
-			h.hop()
+			switch {
+			case h.useTwin:
+				h.hop("")
+			case r.Chance(0.5):
+				h.hop("json")
+			default:
+				h.hop("load")
+			}
 		}
 		if r.Chance(malP) {
 			h.exec(malformedOp(r, gs))
@@ -367,8 +374,8 @@ func replayLines(o *Out, lines []string) {
 			h.exec(parseOpLine(l))
 		case len(l) >= 5 && l[:5] == "view ":
 			h.view(l[5:])
-		case l == "hop":
-			h.hop()
+		case l == "hop" || strings.HasPrefix(l, "hop "):
+			h.hop(strings.TrimSpace(l[3:]))
 		}
 	}
 }
